@@ -23,6 +23,16 @@
  *   drain                                extract until no command is returned
  *   finish                               until the socket queue is empty: read, drain  (bounded)
  *   line <hex>                           console: add_console_line() with these bytes (+ NUL)
+ *   getchar [noecho]                     the user object calls get_char("gc_cb", [I_NOECHO]): real get_char() -> set_call()
+ *                                        (SINGLE_CHAR on, telnet option messages, CMD_IN_BUF for typed-ahead characters)
+ *   inputto [noecho]                     the user object calls input_to("gc_cb", [I_NOECHO])
+ *   serve                                one get_user_command(); if it returned a line and an input_to / get_char is
+ *                                        pending: the real call_function_interactive() (single-char mode ends, telnet
+ *                                        option messages, reframe_single_char_input), as process_user_command() does
+ *   wpipe <hex>                          console: these bytes arrive on the stdin pipe: the real console worker procedure
+ *                                        (lib/async/console_worker.c, harness/c13/c13w.c) reads them, one read() per blob,
+ *                                        enqueues into the real line queue; after each blob the real process_io() console
+ *                                        branch dequeues and calls add_console_line()
  *   cb <k> err|dest                      the k-th callback into the user object (0-based, counted over the
  *                                        connection) raises an LPC error / destructs the user object
  *
@@ -71,11 +81,27 @@ static void hex (char *out, const unsigned char *p, size_t n)
   *out = 0;
 }
 
+/* transition probe (`ccprobe`): callbacks are collected here instead of being printed */
+static char *cc_cap = 0;
+static size_t cc_cap_len = 0;
+
 static void out_hex (const char *tag, const unsigned char *p, size_t n)
 {
   char *b = (char *) malloc (n * 2 + 1);
   hex (b, p, n);
-  if (n)
+  if (cc_cap && !strncmp (tag, "cb ", 3))
+    {
+      cc_cap_len += sprintf (cc_cap + cc_cap_len, "%s%c:%s", cc_cap_len ? "," : "", tag[3], n ? b : "-");
+      free (b);
+      return;
+    }
+  if (n > 3000)
+    {
+      /* not through vh_out(): its line buffer is shorter than a long blob in hex */
+      fprintf (stderr, "VL %s %s\n", tag, b);
+      fflush (stderr);
+    }
+  else if (n)
     vh_out ("%s %s", tag, b);
   else
     vh_out ("%s -", tag);
@@ -174,7 +200,10 @@ struct svalue_s *c13_apply (const char *fun, struct object_s *ob, int num_arg, i
         }
       if (!strcmp (fun, APPLY_WINDOW_SIZE) && num_arg == 2)
         {
-          vh_out ("cb naws %ld %ld", (long) (sp - 1)->u.number, (long) sp->u.number);
+          if (cc_cap)
+            cc_cap_len += sprintf (cc_cap + cc_cap_len, "%sn:%ld:%ld", cc_cap_len ? "," : "", (long) (sp - 1)->u.number, (long) sp->u.number);
+          else
+            vh_out ("cb naws %ld %ld", (long) (sp - 1)->u.number, (long) sp->u.number);
           pop_n_elems (num_arg);
           cb_done (ob);
           return 0;
@@ -358,6 +387,74 @@ static int do_extract (void)
   return cmd != 0;
 }
 
+
+/* get_char() / input_to() called by the user object (telnet port): the real efun back ends in src/simulate.c, which
+ * call the real set_call() of the included comm.c */
+static void do_setcall (int single, int flags)
+{
+  if (!alive ())
+    return;
+  object_t *scg = command_giver, *sco = current_object;
+  error_context_t econ;
+  svalue_t fun;
+  fun.type = T_STRING;
+  fun.subtype = STRING_CONSTANT;
+  fun.u.string = "gc_cb";
+  save_context (&econ);
+  if (!setjmp (econ.context))
+    {
+      command_giver = c13_ob;
+      current_object = c13_ob;
+      int ok = single ? get_char (&fun, flags, 0, 0) : input_to (&fun, flags, 0, 0);
+      vh_out ("setcall %d", ok);
+      pop_context (&econ);
+    }
+  else
+    {
+      restore_context (&econ);
+      pop_context (&econ);
+      vh_out ("err");
+    }
+  command_giver = scg;
+  current_object = sco;
+  after_step ();
+}
+
+static void do_serve (void)
+{
+  if (!alive ())
+    return;
+  c13_ip->iflags |= HAS_CMD_TURN;
+  char *cmd = get_user_command ();
+  if (cmd)
+    out_hex ("cmd", (unsigned char *) cmd, strlen (cmd));
+  else
+    vh_out ("nocmd");
+  if (cmd && alive () && c13_ip->input_to)
+    {
+      object_t *scg = command_giver, *sco = current_object;
+      error_context_t econ;
+      save_context (&econ);
+      if (!setjmp (econ.context))
+        {
+          command_giver = c13_ob;
+          current_object = 0;
+          eval_cost = CONFIG_INT (__MAX_EVAL_COST__);
+          call_function_interactive (c13_ip, cmd);
+          pop_context (&econ);
+        }
+      else
+        {
+          restore_context (&econ);
+          pop_context (&econ);
+          vh_out ("err");
+        }
+      command_giver = scg;
+      current_object = sco;
+    }
+  after_step ();
+}
+
 static size_t unhex (const char *s, unsigned char **out)
 {
   size_t n = strlen (s) / 2;
@@ -384,6 +481,207 @@ static void do_send (const char *h)
   memcpy (sockq + sockq_len, b, n);
   sockq_len += n;
   free (b);
+}
+
+
+/* console input through the real worker procedure and the real console branch of process_io() */
+extern int c13w_run_once (async_queue_t *q, const unsigned char *data, size_t len, size_t *pos);
+
+static void do_wpipe (const char *h)
+{
+  unsigned char *b;
+  size_t n = (h[0] == '-') ? (b = (unsigned char *) malloc (1), 0) : unhex (h, &b);
+  /* exact-size copy of the scripted stdin content */
+  unsigned char *data = (unsigned char *) malloc (n ? n : 1);
+  memcpy (data, b, n);
+  free (b);
+  if (!g_console_queue)
+    g_console_queue = async_queue_create (256, CONSOLE_MAX_LINE, ASYNC_QUEUE_DROP_OLDEST);	/* as init_console_user() does */
+  size_t pos = 0;
+  int guard = 0;
+  while (pos < n && alive () && ++guard < 64)
+    {
+      if (!c13w_run_once (g_console_queue, data, n, &pos))
+        break;
+      memset (&g_io_events[0], 0, sizeof g_io_events[0]);
+      g_io_events[0].completion_key = CONSOLE_COMPLETION_KEY;
+      g_num_io_events = 1;
+      process_io ();
+      g_num_io_events = 0;
+      after_step ();
+    }
+  free (data);
+}
+
+/* ---- transition probe -------------------------------------------------------
+ * `ccprobe <ts> <cr> <single> <sbpos> <fill> <prefix-hex>`: for EVERY byte value 0..255 put the decoder into the
+ * given configuration (ip->state = ts | cr-bit, SINGLE_CHAR, sb_pos, sb_buf = prefix padded with `fill` up to sb_pos,
+ * zero behind, telnet_sb_lm_mode[4] = MODE_ACK) and run the real copy_chars() on that one byte.  One line per byte:
+ *   r <byte> <state'> <sb_pos'> <iflags'> <lm_mode'> <out> <tx> <sb_buf changes i:v,..> <callbacks>
+ * props/c13.py turns the lines into the table NV.Gen.C13.ccTable (state x byte range -> state, actions); the
+ * bridging lemma NV.C13.cc_table_tie compares the model's ccByte with every entry. */
+static void do_ccprobe (const char *args)
+{
+  unsigned ts, cr, single, sbpos, fill;
+  char pre[512] = "", sbp[32] = "";
+  if (sscanf (args, "%u %u %u %31s %u %500s", &ts, &cr, &single, sbp, &fill, pre) < 5)
+    {
+      vh_out ("crash ccprobe-args");
+      return;
+    }
+  /* sb_pos: a number, `S` = SB_SIZE, `S-1` */
+  sbpos = !strcmp (sbp, "S") ? SB_SIZE : !strcmp (sbp, "S-1") ? SB_SIZE - 1 : (unsigned) atoi (sbp);
+  vh_out ("cfg %u %u %u %u %u %s", ts, cr ? 1 : 0, single ? 1 : 0, sbpos, fill, pre[0] ? pre : "-");
+  unsigned char *pb;
+  size_t pn = (pre[0] == '-' || !pre[0]) ? (pb = (unsigned char *) malloc (1), 0) : unhex (pre, &pb);
+  interactive_t *ip = c13_ip;
+  unsigned char before[sizeof (ip->sb_buf)];
+  char cap[1024];
+  for (int b = 0; b < 256; b++)
+    {
+      if (!alive ())
+        {
+          vh_out ("closed");
+          break;
+        }
+      memset (ip->sb_buf, 0, sizeof (ip->sb_buf));
+      for (size_t i = 0; i < sbpos && i < sizeof (ip->sb_buf); i++)
+        ip->sb_buf[i] = i < pn ? pb[i] : (unsigned char) fill;
+      memcpy (before, ip->sb_buf, sizeof before);
+      ip->sb_pos = (int) sbpos;
+      ip->state = (int) (ts | (cr ? TS_CR_SEEN : 0));
+      ip->iflags = single ? SINGLE_CHAR : 0;
+      telnet_sb_lm_mode[4] = MODE_ACK;
+      ip->text_start = ip->text_end = 0;
+      ip->text[0] = 0;
+      tx_len = 0;
+      cap[0] = 0;
+      cc_cap = cap;
+      cc_cap_len = 0;
+      /* exact-size heap buffers: one input byte, at most three stored bytes */
+      unsigned char *from = (unsigned char *) malloc (1), *to = (unsigned char *) malloc (3);
+      from[0] = (unsigned char) b;
+      size_t n = copy_chars (from, to, 1, ip);
+      cc_cap = 0;
+      if (n == (size_t) -1 || !alive ())
+        {
+          vh_out ("r %d dead", b);
+          free (from);
+          free (to);
+          break;
+        }
+      flush_message (ip);
+      char oh[16], *th = (char *) malloc (tx_len * 2 + 2), dh[sizeof (ip->sb_buf) * 10 + 8];
+      hex (oh, to, n <= 3 ? n : 3);
+      hex (th, txbuf, tx_len);
+      size_t dl = 0;
+      dh[0] = 0;
+      for (size_t i = 0; i < sizeof (ip->sb_buf); i++)
+        if (ip->sb_buf[i] != before[i])
+          dl += sprintf (dh + dl, "%s%lu:%u", dl ? "," : "", (unsigned long) i, (unsigned) ip->sb_buf[i]);
+      vh_out ("r %d %d %d %d %d %s %s %s %s", b, ip->state, ip->sb_pos,
+              ip->iflags & (CMD_IN_BUF | USING_TELNET | USING_LINEMODE | SINGLE_CHAR), (int) (unsigned char) telnet_sb_lm_mode[4],
+              n ? oh : "-", tx_len ? th : "-", dl ? dh : "-", cap[0] ? cap : "-");
+      if (n > 3)
+        vh_out ("crash ccprobe: one input byte stored %lu bytes", (unsigned long) n);
+      tx_len = 0;
+      free (th);
+      free (from);
+      free (to);
+    }
+  free (pb);
+}
+
+/* `edprobe`: for every byte value b the real telnet_neg() on "ab<b>c" and on "<b>c" (editing bytes), and the real
+ * add_console_line() on the blob "a<b>c" (bytes converted into the command terminator).  One line per byte:
+ *   e <b> <telnet_neg("ab<b>c")> <telnet_neg("<b>c")> <text after add_console_line("a<b>c")>
+ * props/c13.py derives NV.Gen.C13.tnEditBytes / consoleNulBytes from it (bridging lemma NV.C13.edit_bytes_tie). */
+static void do_edprobe (void)
+{
+  for (int b = 1; b < 256; b++)
+    {
+      char in1[8] = { 'a', 'b', (char) b, 'c', 0 }, in2[8] = { (char) b, 'c', 0 };
+      char *o1 = (char *) malloc (8), *o2 = (char *) malloc (8);
+      memset (o1, 0x5a, 8);
+      memset (o2, 0x5a, 8);
+      telnet_neg (o1, in1);
+      telnet_neg (o2, in2);
+      c13_ip->text_start = c13_ip->text_end = 0;
+      c13_ip->text[0] = 0;
+      c13_ip->iflags &= ~CMD_IN_BUF;
+      char blob[4] = { 'a', (char) b, 'c', 0 };
+      add_console_line (c13_ip, blob, 4);
+      char h1[32], h2[32], h3[32];
+      hex (h1, (unsigned char *) o1, strlen (o1));
+      hex (h2, (unsigned char *) o2, strlen (o2));
+      hex (h3, (unsigned char *) c13_ip->text, c13_ip->text_end <= 8 ? c13_ip->text_end : 8);
+      vh_out ("e %d %s %s %s", b, h1[0] ? h1 : "-", h2[0] ? h2 : "-", h3[0] ? h3 : "-");
+      free (o1);
+      free (o2);
+    }
+  c13_ip->text_start = c13_ip->text_end = 0;
+  c13_ip->text[0] = 0;
+  c13_ip->iflags &= ~CMD_IN_BUF;
+}
+
+/* `xprobe`: small-scope exhaustive run of the real cmd_in_buf / first_cmd_in_buf / next_cmd_in_buf: every buffer
+ * content over the alphabet {NUL, 'a'} of length L <= 5 (followed by one NUL and 0xA5 garbage), every
+ * text_start <= text_end <= L (bytes between text_end and L are stale data), line mode and SINGLE_CHAR.  One line each:
+ *   x <single> <L> <bits> <start> <end> <cmd_in_buf> <ret+1> <start'> <end'> <text'[0..8) code> <strlen(ret)> <start''> <end''> <text''[0..8) code>
+ * (ret = offset returned by first_cmd_in_buf, 0 = NULL; the last four belong to next_cmd_in_buf, called when ret != NULL
+ * as get_user_command does; text codes are base-4 numbers, digit 0 = NUL, 1 = 'a', 2 = 0xA5, 3 = anything else). */
+static unsigned long x_code (const char *t)
+{
+  unsigned long c = 0;
+  for (int i = 7; i >= 0; i--)
+    {
+      unsigned char b = (unsigned char) t[i];
+      c = c * 4 + (b == 0 ? 0 : b == 'a' ? 1 : b == 0xA5 ? 2 : 3);
+    }
+  return c;
+}
+
+static void x_setup (interactive_t *ip, int single, int L, int bits, int st, int en)
+{
+  memset (ip->text, 0xA5, 16);
+  for (int i = 0; i < L; i++)
+    ip->text[i] = (bits >> i) & 1 ? 'a' : 0;
+  ip->text[L] = 0;
+  ip->text_start = st;
+  ip->text_end = en;
+  ip->iflags = single ? SINGLE_CHAR : 0;
+}
+
+static void do_xprobe (void)
+{
+  interactive_t *ip = c13_ip;
+  for (int single = 0; single < 2; single++)
+    for (int L = 0; L <= 5; L++)
+      for (int bits = 0; bits < (1 << L); bits++)
+        for (int en = 0; en <= L; en++)
+          for (int st = 0; st <= en; st++)
+            {
+              x_setup (ip, single, L, bits, st, en);
+              int cib = cmd_in_buf (ip);
+              x_setup (ip, single, L, bits, st, en);
+              char *ret = first_cmd_in_buf (ip);
+              long s1 = (long) ip->text_start, e1 = (long) ip->text_end;
+              unsigned long t1 = x_code (ip->text), t2 = 0;
+              long n = 0, s2 = 0, e2 = 0;
+              if (ret)
+                {
+                  n = (long) strlen (ret);
+                  next_cmd_in_buf (ip);
+                  s2 = (long) ip->text_start;
+                  e2 = (long) ip->text_end;
+                  t2 = x_code (ip->text);
+                }
+              vh_out ("x %d %d %d %d %d %d %ld %ld %ld %lu %ld %ld %ld %lu", single, L, bits, st, en, cib,
+                      ret ? (long) (ret - ip->text) + 1 : 0L, s1, e1, t1, n, s2, e2, t2);
+            }
+  ip->text_start = ip->text_end = 0;
+  ip->text[0] = 0;
+  ip->iflags = 0;
 }
 
 static int c13_cmd (char *line)
@@ -415,8 +713,42 @@ static int c13_cmd (char *line)
       return 1;
     }
   if (!alive ())		/* connection closed earlier: nothing is executed any more */
-    return !strcmp (line, "iflag single") || !strcmp (line, "iflag line") || !strcmp (line, "read") || !strncmp (line, "chunk ", 6)
+    return !strncmp (line, "wpipe ", 6) || !strncmp (line, "getchar", 7) || !strncmp (line, "inputto", 7) || !strcmp (line, "serve") || !strcmp (line, "iflag single") || !strcmp (line, "iflag line") || !strcmp (line, "read") || !strncmp (line, "chunk ", 6)
       || !strcmp (line, "extract") || !strcmp (line, "drain") || !strcmp (line, "finish") || !strncmp (line, "line ", 5);
+  if (!strcmp (line, "xprobe"))
+    {
+      do_xprobe ();
+      return 1;
+    }
+  if (!strcmp (line, "edprobe"))
+    {
+      do_edprobe ();
+      return 1;
+    }
+  if (!strncmp (line, "ccprobe ", 8))
+    {
+      do_ccprobe (line + 8);
+      return 1;
+    }
+  if (!strncmp (line, "getchar", 7) || !strncmp (line, "inputto", 7))
+    {
+      if (port_kind != PORT_TELNET)
+        return 0;
+      do_setcall (line[0] == 'g', strstr (line, "noecho") ? I_NOECHO : 0);
+      return 1;
+    }
+  if (!strcmp (line, "serve"))
+    {
+      do_serve ();
+      return 1;
+    }
+  if (!strncmp (line, "wpipe ", 6))
+    {
+      if (port_kind != CONSOLE_USER)
+        return 0;
+      do_wpipe (line + 6);
+      return 1;
+    }
   if (!strcmp (line, "iflag single"))
     {
       if (alive ())
